@@ -13,10 +13,21 @@ Line-protocol driver of C10 (imports the model only).  One reply line per reques
   conf     mu sd                  -> <lower rows> | <upper rows>
   bcast    k d1..dk | j c1..cj    -> factors f1..fk | ok=<0/1>   (ok: repeat reads what broadcasting reads)
 
+  asmlp    q ld k log2pi          -> <rat>      generated `log_prob` assembly
+  asmkl    ldq ldp tpq k          -> <rat>      generated `kl_mvn_mvn` assembly
+  gcov     S | lenIdx meanDim ellInRest | idx-token(last)  -> br=<branch>;rows=..;cols=..;<sub-matrix rows>  (generated dispatch)
+  varclamp floor n v1..vn         -> v1' .. vn'  generated variance clamp
+  perm     d                      -> in: .. | out: .. | roundtrip=<0/1>   generated permute lists of rsample
+  unsq     nb dim                 -> <int> | reject   generated unsqueeze dimension
+  divf     c                      -> <rat>            generated `__truediv__` factor
+
+All numeric requests (`logprob kl rsample affine sum jitter conf bcast` and the ones above) are evaluated through the
+REGENERATED definitions of `Gen/MVN.lean` (namespace `GenMVN`); `index slice marg` through the hand-written model.
 Matrices travel as `rows cols v11 v12 …` with exact rationals.
 idx-tokens:  I i | S start stop step | E | L len i1..ilen      (N = None)
 -/
 import GPVerif.Model.MVN
+import GPVerif.Gen.MVN
 import GPVerif.Model.Proto
 open Proto MVN
 
@@ -70,9 +81,9 @@ def doLogprob (ts : List String) : Option String := do
   let (n1, c1, mu, r2) ← takeMat? r1
   let (n2, c2, v, _) ← takeMat? r2
   if n ≠ c ∨ n1 ≠ n ∨ n2 ≠ n ∨ c1 ≠ 1 ∨ c2 ≠ 1 then none else
-  match logProbParts? (mat n n S) (mat n 1 mu) (mat n 1 v) with
-  | some (q, d) => some s!"quad={showRat q};det={showRat d}"
-  | none => some "singular"
+  match GenMVN.logProbInvQuad? (mat n n S) (mat n 1 v) (mat n 1 mu), det? (mat n n S) with
+  | some q, some d => some s!"quad={showRat q};det={showRat d}"
+  | _, _ => some "singular"
 
 def doKl (ts : List String) : Option String := do
   let (n, c, Sp, r1) ← takeMat? ts
@@ -91,7 +102,7 @@ def doKl (ts : List String) : Option String := do
     | some (n4, m, R, _) =>
       if n4 ≠ n then none else
       let R' := mat n m R
-      match klCode? Sq' mup' muq' R' with
+      match GenMVN.klTracePlusInvQuadForm? (fun sd => match sd with | Side.p => Sp' | Side.q => Sq') mup' muq' R' with
       | some code =>
         let res := maxAbs ((R'.mul R'.transpose).sub Sp')
         some (base ++ s!";code={showRat code};rres={showRat res}")
@@ -144,7 +155,7 @@ def doRsample (ts : List String) : Option String := do
   let (n1, m, L, r2) ← takeMat? r1
   let (m1, c2, e, _) ← takeMat? r2
   if n1 ≠ n ∨ m1 ≠ m ∨ c1 ≠ 1 ∨ c2 ≠ 1 then none else
-  some (showMat (rsample (mat n 1 mu) (mat n m L) (mat m 1 e)))
+  some (showMat (GenMVN.rsampleCore (mat n 1 mu) (mat n m L) (mat m 1 e)))
 
 def doAffine (ts : List String) : Option String :=
   match ts with
@@ -154,7 +165,7 @@ def doAffine (ts : List String) : Option String :=
     let (n, c1, mu, r1) ← takeMat? rest
     let (n1, c, S, _) ← takeMat? r1
     if n1 ≠ n ∨ c ≠ n ∨ c1 ≠ 1 then none else
-    some (showMat (shiftMean b (scaleMean a (mat n 1 mu))) ++ " | " ++ showMat (scaleCov a (mat n n S)))
+    some (showMat (GenMVN.addScalarMean b (GenMVN.mulMean a (mat n 1 mu))) ++ " | " ++ showMat (GenMVN.addScalarCov (GenMVN.mulCov a (mat n n S))))
   | _ => none
 
 def doSum (ts : List String) : Option String := do
@@ -163,7 +174,7 @@ def doSum (ts : List String) : Option String := do
   let (n2, c2, mu2, r3) ← takeMat? r2
   let (n3, c3, S2, _) ← takeMat? r3
   if n1 ≠ n ∨ n2 ≠ n ∨ n3 ≠ n ∨ c ≠ n ∨ c3 ≠ n ∨ c1 ≠ 1 ∨ c2 ≠ 1 then none else
-  some (showMat (sumMean (mat n 1 mu1) (mat n 1 mu2)) ++ " | " ++ showMat (sumCov (mat n n S1) (mat n n S2)))
+  some (showMat (GenMVN.addMean (mat n 1 mu1) (mat n 1 mu2)) ++ " | " ++ showMat (GenMVN.addCov (mat n n S1) (mat n n S2)))
 
 def doJitter (ts : List String) : Option String :=
   match ts with
@@ -171,7 +182,7 @@ def doJitter (ts : List String) : Option String :=
     let e ← parseRat? e
     let (n, c, S, _) ← takeMat? rest
     if c ≠ n then none else
-    some (showMat (jitterCov e (mat n n S)))
+    some (showMat (GenMVN.addJitterCov e (mat n n S)))
   | _ => none
 
 def doConf (ts : List String) : Option String := do
@@ -180,7 +191,7 @@ def doConf (ts : List String) : Option String := do
   if n1 ≠ n ∨ c1 ≠ 1 ∨ c2 ≠ 1 then none else
   let mu' := mat n 1 mu
   let sd' := mat n 1 sd
-  let cr := confidenceRegion (fun i => mu'.toMatrix i 0) (fun i => sd'.toMatrix i 0)
+  let cr := GenMVN.confidenceRegion (fun i => mu'.toMatrix i 0) (fun i => sd'.toMatrix i 0)
   some (showMat (colVec cr.1) ++ " | " ++ showMat (colVec cr.2))
 
 def doBcast (ts : List String) : Option String := do
@@ -192,13 +203,89 @@ def doBcast (ts : List String) : Option String := do
     let ds ← parseNats? ds
     let cs ← parseNats? cs
     if ds.length ≠ k ∨ cs.length ≠ j then none else
-    let fs := repeatFactors ds cs
-    let pc := padBatch ds.length cs
+    let fs := (GenMVN.logProbRepeat ds cs).take (GenMVN.logProbRepeat ds cs).length.pred.pred   -- drop the trailing `1, 1`
+    let pc := GenMVN.logProbPadded ds cs
     -- repeat produces the diff shape and reads what broadcasting reads, in every dimension
     let ok := (List.zip ds (List.zip pc fs)).all fun (d, c, f) =>
       f * c == d && (List.range d).all fun i => repeatSource c i == broadcastSource c i
     some ("factors" ++ String.join (fs.map fun f => s!" {f}") ++ s!" | ok={if ok && pc.length == ds.length then 1 else 0}")
   | _, _ => none
+
+def showSelPos (sl : Sel) : String := " ".intercalate (sl.positions.map toString)
+
+def brName : Br → String
+  | .batchOnly => "batchOnly" | .tooMany => "tooMany" | .int => "int" | .slice => "slice"
+  | .ellipsis => "ellipsis" | .advanced => "advanced"
+
+def doAsmLp (ts : List String) : Option String := do
+  match ← parseRats? ts with
+  | [q, ld, k, l] => some (showRat (GenMVN.logProbRes q ld k l))
+  | _ => none
+
+def doAsmKl (ts : List String) : Option String := do
+  match ← parseRats? ts with
+  | [ldq, ldp, tpq, k] => some (showRat (GenMVN.klRes (fun sd => match sd with | Side.q => ldq | Side.p => ldp) tpq k))
+  | _ => none
+
+def doGcov (ts : List String) : Option String := do
+  let (n, c, S, r1) ← takeMat? ts
+  if n ≠ c then none else
+  match r1 with
+  | "|" :: l :: d :: e :: "|" :: rest => do
+    let l ← l.toNat?
+    let d ← d.toNat?
+    let idx ← parseIdx rest
+    match idx with
+    | [last] =>
+      let br := GenMVN.getitemDispatch l d (e == "1") last
+      match covSelPositions n last (GenMVN.getitemCov br) with
+      | some (rs, cs) =>
+        match subMat? (mat n n S) rs.positions cs.positions with
+        | some M => some s!"br={brName br};rows={showSelPos rs};cols={showSelPos cs};{showMat M}"
+        | none => some s!"br={brName br};out-of-range"
+      | none => some s!"br={brName br};nosel"
+    | _ => none
+  | _ => none
+
+def doVarclamp (ts : List String) : Option String :=
+  match ts with
+  | fl :: n :: vs => do
+    let fl ← parseRat? fl
+    let n ← n.toNat?
+    let vs ← parseRats? vs
+    if vs.length ≠ n then none else
+    let arr := vs.toArray
+    let out := GenMVN.varianceClamp fl (fun (i : Fin n) => arr[i.1]!)
+    some (" ".intercalate ((List.finRange n).map fun i => showRat (out i)))
+  | _ => none
+
+def doPerm (ts : List String) : Option String :=
+  match ts with
+  | [d] => do
+    let d ← d.toNat?
+    let pin := GenMVN.rsamplePermIn d
+    let pout := GenMVN.rsamplePermOut d
+    let ok := (List.range (d + 1)).all fun j => permSource pin (permSource pout j) == j
+    some ("in: " ++ " ".intercalate (pin.map toString) ++ " | out: " ++ " ".intercalate (pout.map toString) ++
+      s!" | roundtrip={if ok then 1 else 0}")
+  | _ => none
+
+def doUnsq (ts : List String) : Option String :=
+  match ts with
+  | [nb, dim] => do
+    let nb ← nb.toNat?
+    let dim ← dim.toInt?
+    match GenMVN.unsqueezeDim nb dim with
+    | some r => some (toString r)
+    | none => some "reject"
+  | _ => none
+
+def doDivf (ts : List String) : Option String :=
+  match ts with
+  | [c] => do
+    let c ← parseRat? c
+    some (showRat (GenMVN.divFactor c))
+  | _ => none
 
 def step (line : String) : String :=
   match tokens line with
@@ -215,6 +302,13 @@ def step (line : String) : String :=
       | "jitter" => doJitter ts
       | "conf" => doConf ts
       | "bcast" => doBcast ts
+      | "asmlp" => doAsmLp ts
+      | "asmkl" => doAsmKl ts
+      | "gcov" => doGcov ts
+      | "varclamp" => doVarclamp ts
+      | "perm" => doPerm ts
+      | "unsq" => doUnsq ts
+      | "divf" => doDivf ts
       | _ => none
     r.getD "bad-request"
   | [] => "bad-request"
